@@ -6,5 +6,6 @@ CONSTANTS
   LatchChecked = TRUE
   CloseLatches = TRUE
   TimeoutReleases = FALSE
+  HandlerControlPath = TRUE
 INVARIANTS TypeOK WholeFrames
 CHECK_DEADLOCK FALSE
